@@ -18,6 +18,7 @@ cache/s3.py, cache/azureblob.py).
 """
 import itertools
 import os
+import queue as _queue
 import threading
 import time
 
@@ -37,7 +38,12 @@ RULE = ('A case = (n items, entry point, pool size, result mode, failing subset,
         'patterns (eager, late, first-then-all, stepwise, lag, half); for n = 4 (quick) / 5 (thorough) Pool.imap runs '
         'under all 6 patterns and the other entry points under the eager consumer. Random part (Hypothesis): '
         'n = 5..6 (quick) / 6 (thorough) with free interleavings of grants (k in 0..3 or unlimited) and burst releases '
-        '(no quiescence wait in between). A case is non-trivial when the observed completion order differs from the '
+        '(no quiescence wait in between). Two harness-owned extras (enumerated and random): (a) forced-shutdown race - the '
+        'pool task queue is a queue.Queue subclass that, during shutdown(force=True) in the consumer thread, lets idle-'
+        'becoming workers take queued tasks between a non-empty empty() answer and the following get(block=False) '
+        '(more items than workers, failing item at every position, raise mode and the abandon caller pattern); '
+        '(b) injected fault - ThreadWorker.start raises RuntimeError("can\'t start new thread") for the first / odd / '
+        'all-but-first / all workers. A case is non-trivial when the observed completion order differs from the '
         'input order, or a failing item is not the last one to complete; distinct = distinct case descriptions.')
 ASSUMPTIONS = [
     'a fresh pool per fan-out (what every in-tree caller does); reuse of a pool after a raise is not explored',
@@ -46,10 +52,15 @@ ASSUMPTIONS = [
     'liveness is bounded: the consumer must finish / the workers must exit within a 30 s watchdog (VERIF_C15_WATCHDOG) after every item was released; a shard stops searching after its first watchdog expiry (recorded as inconclusive)',
     'completion order is owned at the granularity "task body finished"; the order in which two workers reach result_queue.put after a burst release is left to the OS',
     'empty input (n = 0) only for the imap/map entry points (star entry points index args[0])',
+    'worker-start fault cases judge termination (8 s watchdog, VERIF_C15_FAULT_WATCHDOG) and the delivered results only: either correct results or the injected RuntimeError itself reaches the caller; workers started before the failure are retired by the harness, not judged',
 ]
 
 WATCHDOG = float(os.environ.get('VERIF_C15_WATCHDOG', '30'))
 QUIET = float(os.environ.get('VERIF_C15_QUIET', '0.0004'))
+# fault-injected cases (no worker can be started): nothing but a handful of thread switches is needed to
+# terminate, so a hang surfaces after a much shorter watchdog
+FAULT_WATCHDOG = float(os.environ.get('VERIF_C15_FAULT_WATCHDOG', str(min(WATCHDOG, 8.0))))
+RACE_WAIT = 0.25  # upper bound for letting the workers through inside a pre-empted empty() (coverage only)
 
 SIG_SEQ_RAISE = 'C15/sequential/raise-mode/exc_info-yielded-as-value'
 SIG_STAR_ARITY = 'C15/starmap-starcall/single-item-shortcut-keyed-on-arity/items-never-executed'
@@ -115,6 +126,17 @@ class Run(object):
         self.pools = []
         self.join_at = None
         self.single_calls = 0
+        # forced-shutdown race (case['race']) and worker-start fault (case['fault'])
+        self.consumer_ident = None
+        self.in_forced = False
+        self.race_checks = 0
+        self.race_preempted = False
+        self.race_drained = False
+        self.forced_done = False
+        self.start_calls = 0
+        self.injected = []
+        self.fault_started = []
+        self.leftover = False
 
     def bump(self):
         with self.cond:
@@ -174,6 +196,69 @@ class Run(object):
                 if time.monotonic() > deadline:  # pragma: no cover
                     raise core.HarnessError('harness did not become quiescent: running=%r' % (running,))
 
+    def await_forced_shutdown(self):
+        """race cases: give the consumer time to notice the failed item and run its forced shutdown before
+        the schedule goes on (bounded; only decides whether the race window is covered)"""
+        deadline = time.monotonic() + 0.5
+        f = min(self.fail)
+        with self.cond:
+            # the consumer can only get there once the failed item (abandon: and every item before it) is done
+            need = [f] if self.case['mode'] == 'raise' else list(range(f + 1))
+            if any(i not in self.finish_log for i in need):
+                return
+            while not (self.forced_done or self.consumer_done.is_set()) and time.monotonic() < deadline:
+                self.cond.wait(0.01)
+
+    def await_started(self, i):
+        """race cases: release an item only once a worker runs it (bounded; coverage only)"""
+        deadline = time.monotonic() + 1.0
+        with self.cond:
+            while i not in self.started and not self.consumer_done.is_set() and time.monotonic() < deadline:
+                self.cond.wait(0.01)
+
+    def preempt(self, q):
+        """called in the consumer thread between its task_queue.empty() == False and the following
+        get(block=False) of a forced shutdown: behave like a thread that is pre-empted right there - idle-
+        becoming workers are let through to the task queue."""
+        how = self.case['race']['release']
+        before = q.qsize()
+        with self.cond:
+            running = sorted(i for i in self.started if i not in self.released)
+        if how == 'all':
+            targets = list(range(self.n))  # tasks picked up now run through as well
+            goal = 0
+        else:
+            targets = running[:1] if how == 'one' else running[-1:]  # 'one' / 'last'
+            goal = before - 1
+        if not targets:
+            return
+        self.race_preempted = True
+        for i in targets:
+            self.release(i)
+        deadline = time.monotonic() + RACE_WAIT
+        while q.qsize() > goal and time.monotonic() < deadline:
+            time.sleep(0.0002)
+        self.race_drained = q.qsize() == 0
+
+
+class RaceQueue(_queue.Queue):
+    """queue.Queue used as the pool's task queue in race cases: the generated k-th non-empty answer of
+    empty() given to the consumer thread *during shutdown(force=True)* is delayed while workers take tasks."""
+
+    def __init__(self, R):
+        _queue.Queue.__init__(self)
+        self._c15_run = R
+
+    def empty(self):
+        is_empty = _queue.Queue.empty(self)
+        R = self._c15_run
+        if not is_empty and R.in_forced and threading.get_ident() == R.consumer_ident:
+            k = R.race_checks
+            R.race_checks += 1
+            if k == R.case['race']['at']:
+                R.preempt(self)
+        return is_empty
+
 
 def make_call(R, pool):
     """-> zero-arg callable performing the fan-out call of the case's entry point"""
@@ -216,6 +301,7 @@ def make_call(R, pool):
 def consumer_main(R, call, pool):
     a = _async()
     abandon = R.case['mode'] == 'abandon'
+    R.consumer_ident = threading.get_ident()
     try:
         if R.case['entry'] == 'map':
             R.wait_permit()
@@ -251,7 +337,12 @@ def consumer_main(R, call, pool):
                 R.cond.notify_all()
             if abandon and isinstance(v, a.AsyncResult) and v.exception is not None:
                 # what service/wms.py and cache/tile.py do at the first reported error
-                pool.shutdown(True)
+                try:
+                    pool.shutdown(True)
+                except BaseException as e:
+                    # the in-tree callers would propagate this instead of the item's exception
+                    R.terminal = ('raise', e)
+                    return
                 R.terminal = ('abandon',)
                 return
     finally:
@@ -274,6 +365,22 @@ class traced_pools(object):
 
         def _init_pool(pool_self):
             R.pools.append(pool_self)
+            if R.case.get('race') and not isinstance(pool_self.task_queue, RaceQueue):
+                # no task is queued and no worker exists yet
+                pool_self.task_queue = RaceQueue(R)
+                orig_shutdown = pool_self.shutdown
+
+                def shutdown(force=False):
+                    if force:
+                        R.in_forced = True
+                    try:
+                        return orig_shutdown(force)
+                    finally:
+                        R.in_forced = False
+                        if force:
+                            R.forced_done = True
+                            R.bump()
+                pool_self.shutdown = shutdown
             q = pool_self.task_queue
             if not getattr(q, '_c15_traced', False):
                 orig_join = q.join
@@ -295,12 +402,34 @@ class traced_pools(object):
             return orig_single(pool_self, *args, **kw)
         a.ThreadPool._init_pool = _init_pool
         a.ThreadPool._single_call = _single_call
+        self.fault = R.case.get('fault')
+        if self.fault:
+            kind = self.fault
+            self.own_start = a.ThreadWorker.__dict__.get('start')
+            orig_start = a.ThreadWorker.start
+
+            def start(thread_self):
+                k = R.start_calls
+                R.start_calls += 1
+                if {'first': k == 0, 'odd': k % 2 == 1, 'all-but-first': k >= 1, 'all': True}[kind]:
+                    e = RuntimeError("can't start new thread")  # what CPython raises at the thread limit
+                    R.injected.append(e)
+                    raise e
+                r = orig_start(thread_self)
+                R.fault_started.append(thread_self)
+                return r
+            a.ThreadWorker.start = start
         return self
 
     def __exit__(self, *exc):
         a = _async()
         a.ThreadPool._init_pool = self.orig
         a.ThreadPool._single_call = self.orig_single
+        if self.fault:
+            if self.own_start is not None:
+                a.ThreadWorker.start = self.own_start
+            else:
+                del a.ThreadWorker.start
         return False
 
 
@@ -362,7 +491,11 @@ def execute(case, host):
         try:
             host.submit(lambda: consumer_main(R, call, pool))
             for act in case['actions']:
-                if act[0] == 'r':
+                if act[0] == 'w':
+                    R.await_forced_shutdown()
+                elif act[0] == 'r':
+                    if case.get('race') and case['race'].get('sync') and not R.forced_done:
+                        R.await_started(act[1])
                     R.release(act[1])
                     if len(act) > 2 and act[2]:
                         continue  # burst: no quiescence wait
@@ -375,18 +508,34 @@ def execute(case, host):
             for i in range(R.n):
                 R.release(i)
             R.grant(None)
-        if not R.consumer_done.wait(WATCHDOG):
+        wd = FAULT_WATCHDOG if case.get('fault') else WATCHDOG
+        if not R.consumer_done.wait(wd):
             # every item is released and the consumer may take everything: it must terminate
             host.abandon()
             R.problems.append(('deadlock', 'consumer still blocked %.0f s after every item was released '
-                                           '(results so far: %d)' % (WATCHDOG, len(R.items))))
-        deadline = time.monotonic() + WATCHDOG
+                                           '(results so far: %d)' % (wd, len(R.items))))
+        if case.get('fault'):
+            # Only termination and the delivered results are judged here.  Workers that were started before
+            # the injected start failure are not shut down by the code under test; the harness retires them.
+            for w in R.fault_started:
+                if w.is_alive():
+                    w.task_queue.put(None)
+            if not R.problems:
+                for w in R.fault_started:
+                    w.join(WATCHDOG)
+                    if w.is_alive():
+                        R.leftover = True
+            return R
+        term = R.terminal
+        foreign = bool(term and term[0] == 'raise' and not any(term[1] is e for e in R.excs.values()))
+        # (a foreign exception is a violation by itself: do not spend a watchdog period on the pool threads)
+        deadline = time.monotonic() + (1.0 if foreign else WATCHDOG)
         alive = []
         for w in R.workers:
             w.join(max(0.0, deadline - time.monotonic()))
             if w.is_alive():
                 alive.append(w.name)
-        if alive and not R.problems:
+        if alive and not R.problems and not foreign:
             R.problems.append(('workers-not-exiting', '%d of %d pool threads still alive %.0f s after the '
                                                       'fan-out ended and every item was released'
                                % (len(alive), len(R.workers), WATCHDOG)))
@@ -461,6 +610,8 @@ def judge(R):
         k = len(R.items)
         if term[0] == 'raise':
             e = term[1]
+            if any(e is x for x in R.injected):
+                return None  # the injected worker-start failure itself reached the caller: reported, terminated
             for j in F:
                 if e is R.excs[j]:
                     return None
@@ -512,6 +663,8 @@ def judge(R):
     k = len(R.items)
     if term[0] == 'raise':
         e = term[1]
+        if any(e is x for x in R.injected):
+            return None
         if any(e is R.excs[j] for j in F):
             return ('result-mode/exception-raised', 'result-object mode raised %r instead of reporting it' % (e,))
         return ('foreign-exception/' + type(e).__name__, 'the fan-out raised %r which no item raised' % (e,))
@@ -537,6 +690,10 @@ def signature(R, symptom):
     if (symptom == 'items-never-executed' and case['entry'] in STAR_ARITY1 and R.n >= 2
             and R.started <= {0} and not R.workers):
         return SIG_STAR_ARITY
+    if case.get('fault'):
+        return 'C15/worker-start-failure/%s' % symptom
+    if case.get('race') and R.race_preempted:
+        return 'C15/forced-shutdown-race/%s' % symptom
     return 'C15/%s/%s' % (path_of(R), symptom)
 
 
@@ -574,8 +731,21 @@ def run_case(case, stats, ses):
         if R.terminal[0] == 'raise' and case['mode'] == 'raise' and R.fail:
             classes.append('raised-before-first-failing-position' if len(R.items) < min(R.fail)
                            else 'raised-at-first-failing-position')
-    if any(len(a_) > 2 and a_[2] for a_ in case['actions']):
+    if any(a_[0] == 'r' and len(a_) > 2 and a_[2] for a_ in case['actions']):
         classes.append('burst-release')
+    if case.get('race'):
+        classes.append('race:' + ('worker-let-through-in-forced-shutdown' if R.race_preempted
+                                  else 'no-forced-shutdown-with-queued-tasks'))
+        if R.race_drained:
+            classes.append('race:queue-emptied-between-empty()-and-get()')
+    if case.get('fault'):
+        classes.append('fault:' + case['fault'])
+        started = len(R.fault_started)
+        classes.append('fault:workers-started-%s' % ('0' if not started else '>=1'))
+        if R.terminal and R.terminal[0] == 'raise' and any(R.terminal[1] is x for x in R.injected):
+            classes.append('fault:start-error-propagated')
+        if R.leftover:
+            stats.notes['fault-case worker did not retire after harness sentinel'] += 1
     stats.case(key=case, nontrivial=nt, classes=classes, sample=case)
     if res is None:
         return None
@@ -726,6 +896,57 @@ def enum_cases(full_n, top_n):
                                'actions': actions, 'pattern': pat, 'perm': list(perm)}
 
 
+FAULTS = ['first', 'odd', 'all-but-first', 'all']
+
+
+def enum_special(top_n):
+    """the two harness-owned extras (eager consumer):
+    race  - more items than workers, one failing item, forced shutdown (raise mode: inside the pool; abandon
+            mode: the in-tree caller pattern) with a worker let through between empty() and get(block=False);
+    fault - ThreadWorker.start fails for a generated subset of the workers."""
+    for n in range(3, top_n + 2):
+        for size in range(2, n):
+            combos = [('imap', size, 'raise'), ('imap', size, 'abandon'), ('starmap2', size, 'raise'),
+                      ('starcall2', size, 'abandon'), ('map', size, 'raise')]
+            # (the module-level helpers size their pool to the item count: nothing is ever left queued)
+            for f in range(n):
+                others = [i for i in range(n) if i != f]
+                # c items complete before the failing one; schedules that cannot leave a task queued at the
+                # moment of the forced shutdown are not generated (q = number of tasks still queued then)
+                for c in range(0, n - size - 1):
+                    q = n - size - c - 1
+                    for prefix in itertools.permutations(others, c):
+                        if f >= size + c or any(it >= size + k for k, it in enumerate(prefix)):
+                            continue  # would be released before a worker can have started it
+                        perm = list(prefix) + [f] + [i for i in others if i not in prefix]
+                        for entry, psize, mode in combos:
+                            if mode == 'abandon' and not set(range(f)) <= set(prefix):
+                                continue  # the caller only sees item f's error after the items before it
+                            for at in range(min(q, 2)):
+                                for how in ('all', 'one', 'last'):
+                                    acts = build_actions('eager', perm)
+                                    acts.insert(acts.index(['r', f]) + 1, ['w'])
+                                    yield {'n': n, 'entry': entry, 'pool': psize, 'mode': mode, 'fail': [f],
+                                           'actions': acts, 'pattern': 'eager',
+                                           'perm': perm, 'race': {'at': at, 'release': how, 'sync': 1}}
+    for n in (2, 3):
+        subsets = [list(s_) for k in range(n + 1) for s_ in itertools.combinations(range(n), k)]
+        for size in range(2, n + 2):
+            combos = [('imap', size, 'raise'), ('imap', size, 'objects'), ('imap', size, 'abandon'),
+                      ('starcall2', size, 'objects'), ('map', size, 'raise')]
+            if size == n:
+                combos.append(('mod_imap', None, 'raise'))
+            for perm in (tuple(range(n)), tuple(reversed(range(n)))):
+                for fail in subsets:
+                    for entry, psize, mode in combos:
+                        if mode == 'abandon' and not fail:
+                            continue
+                        for kind in FAULTS:
+                            yield {'n': n, 'entry': entry, 'pool': psize, 'mode': mode, 'fail': fail,
+                                   'actions': build_actions('eager', perm), 'pattern': 'eager',
+                                   'perm': list(perm), 'fault': kind}
+
+
 def scope_for(tier):
     top = int(os.environ.get('VERIF_C15_MAXN', '4' if tier == 'quick' else '5'))
     full = int(os.environ.get('VERIF_C15_FULLN', str(top - 1)))
@@ -757,7 +978,7 @@ def exhaustive_shard(shard, nshards, seed, tier):
     total = 0
     full_n, top_n = scope_for(tier)
     with Session() as ses:
-        for k, case in enumerate(enum_cases(full_n, top_n)):
+        for k, case in enumerate(itertools.chain(enum_cases(full_n, top_n), enum_special(top_n))):
             if k % nshards != shard:
                 continue
             total += 1
@@ -800,8 +1021,26 @@ def random_cases(draw, sizes):
         else:
             actions.append(['r', i])
     actions.append(['c', None])
-    return {'n': n, 'entry': entry, 'pool': size, 'mode': mode, 'fail': fail, 'actions': actions,
+    case = {'n': n, 'entry': entry, 'pool': size, 'mode': mode, 'fail': fail, 'actions': actions,
             'perm': list(perm)}
+    extra = draw(st.integers(0, 9))
+    if extra < 2 and size is not None and entry != 'map' or extra == 2 and size is not None:
+        # forced-shutdown race: fewer workers than items, a failing item, a mode that shuts down by force
+        case['pool'] = draw(st.integers(2, n - 1))
+        if not fail:
+            case['fail'] = [draw(st.integers(0, n - 1))]
+        if case['mode'] == 'objects':
+            case['mode'] = 'abandon' if entry != 'map' else 'raise'
+        case['race'] = {'at': draw(st.integers(0, 2)), 'release': draw(st.sampled_from(['all', 'one', 'last']))}
+        for k, a_ in enumerate(actions):
+            if a_[0] == 'r' and a_[1] in case['fail']:
+                actions.insert(k + 1, ['w'])
+                break
+    elif extra == 3:
+        if size is not None:
+            case['pool'] = max(2, size)
+        case['fault'] = draw(st.sampled_from(FAULTS))
+    return case
 
 
 def random_shard(shard, nshards, seed, tier):
@@ -840,9 +1079,12 @@ def run(tier, seed, stats):
         'every permutation of the items (release order) x every failing subset x pool sizes 1..n+1 (0..2 for '
         'n = 0) x {raise, result objects, result objects + shutdown(True) at the first error}: for n = 0..%d with all '
         '%d Pool entry points + %d module-level helpers (raise mode only) and all consume patterns (%s); for n = %d '
-        'with Pool.imap under all consume patterns and the other entry points under the eager consumer; minus the '
-        'constructs of open findings (excluded_by_construction)'
-        % (full_n, len(ENTRIES_POOL), len(ENTRIES_MOD), '/'.join(PATTERNS), top_n))
+        'with Pool.imap under all consume patterns and the other entry points under the eager consumer; plus, for '
+        'n = 3..%d, pool size 2..n-1, every single failing item and every release prefix that leaves a task queued when '
+        'the item fails: a worker let through between empty() and get(block=False) of the forced shutdown (1st/2nd '
+        'check x release all/first/last running item; raise and abandon modes); plus, for n = 2..3, worker-start failure (first/odd/all-but-first/all) x pool sizes 2..n+1 x '
+        'every failing subset x 3 modes; minus the constructs of open findings (excluded_by_construction)'
+        % (full_n, len(ENTRIES_POOL), len(ENTRIES_MOD), '/'.join(PATTERNS), top_n, top_n + 1))
     stats.extra['exhaustive_cases_executed'] = ex.evaluations
     stats.merge(ex)
     rnd = core.parallel(random_shard, 16, seed, tier)
